@@ -137,5 +137,27 @@ func (p *Project) SetGroundwaterSeries(r *vh.Rng, lo, hi float64, points int) {
 			lvl = hi - (lvl - hi)
 		}
 		lvl = math.Max(lo, math.Min(hi, lvl))
+		if r.Chance(0.25) { // an unchanged stretch: the next measurement repeats this level exactly
+			lvl = p.GWSerie[len(p.GWSerie)-1].Level
+		}
+	}
+	// every other series: the table rests across the simulation start (the measurement before and the one after
+	// the start date carry the same level, which differs from the first record of the file)
+	if r.Chance(0.5) {
+		s0 := p.Start().Z()
+		for k := 1; k+1 < len(p.GWSerie); k++ {
+			if p.GWSerie[k].Date.Z() <= s0 && p.GWSerie[k+1].Date.Z() > s0+3 {
+				l := p.GWSerie[k].Level
+				if l == p.GWSerie[0].Level {
+					l = vh.RoundTo(math.Max(lo, math.Min(hi, l+0.37*(hi-lo)*r.Uni(0.3, 1))), 2)
+					if l == p.GWSerie[0].Level {
+						l = vh.RoundTo((lo+hi)/2, 2)
+					}
+					p.GWSerie[k].Level = l
+				}
+				p.GWSerie[k+1].Level = l
+				break
+			}
+		}
 	}
 }
